@@ -9,8 +9,9 @@
 (* of node ids and ok = FALSE when the call / query failed.  Each answer must  *)
 (* be correct for the model state                                              *)
 (* (SearchOK = C29); when that fails the answers may be explained by the open  *)
-(* known deviations, all answers of one event under ONE set of deviations and  *)
-(* never under fewer than an earlier event of the script already needed.       *)
+(* known deviations, all answers of one event under ONE set of deviations,     *)
+(* never under fewer than an earlier event of the script already needed, and   *)
+(* with as few additional ones as possible.                                    *)
 EXTENDS VectorIdx, TraceBase
 
 tvars == <<node, idx, ent, clk, l, sid, used, failed>>
@@ -52,13 +53,22 @@ AnswerOK(S, a) ==
             /\ IsExact(key) /\ MayNameMissingNode(S, key, a.q, a.k)
        ELSE SearchOKUnder(S, key, a.q, a.k, a.res)
 
+\* the deviation sets of j more deviations than the script already needed that explain every answer
+AllOK(S) == \A i \in DOMAIN Ev.s : AnswerOK(S, Ev.s[i])
+Lvl(j) == LET base == used \cap KFNames IN
+          {S \in SUBSET (OpenKF \cap KFNames) : base \subseteq S /\ Cardinality(S \ base) = j /\ AllOK(S)}
+\* explained with as few further deviations as possible (a larger set now is never needed later:
+\* later events may add deviations)
 T_Searches ==
     /\ IsEv("Searches")
     /\ UNCHANGED vvars
-    /\ \E S \in SUBSET (OpenKF \cap KFNames) :
-          /\ (used \cap KFNames) \subseteq S
-          /\ \A i \in DOMAIN Ev.s : AnswerOK(S, Ev.s[i])
-          /\ KFs(S)
+    /\ \E Z0 \in {Lvl(0)} :
+         IF Z0 # {} THEN \E S \in Z0 : KFs(S)
+         ELSE \E Z1 \in {Lvl(1)} :
+              IF Z1 # {} THEN \E S \in Z1 : KFs(S)
+              ELSE \E Z2 \in {Lvl(2)} :
+                   IF Z2 # {} THEN \E S \in Z2 : KFs(S)
+                   ELSE \E S \in Lvl(3) : KFs(S)
 
 TNext == T_Fail \/ T_Reset \/ T_CreateNode \/ T_SetVector \/ T_DropVector \/ T_AddLabel \/ T_RemoveLabel
          \/ T_DeleteNode \/ T_CreateIndex \/ T_Rebuild \/ T_Searches
